@@ -7,7 +7,8 @@ from .. import hooks, oracles
 PID = "C17"
 LEVEL = "exploration"
 RULE = ("recorded sets built by the harness (1..40 individuals, 1..5 generation tags in arbitrary recording order or all -1, "
-        "duplicate values, 1..3 goals with random criteria, 1..4 parameters) queried through every Results method of the "
+        "duplicate values, costs closer than the precision declared on the individuals with signed copies made by the library's "
+        "calc_signed_costs, 1..3 goals with random criteria, 1..4 parameters) queried through every Results method of the "
         "statement and compared with a recomputation from the recorded individuals; random point sets through gd/epsilon_add "
         "against independent implementations. non-trivial = recorded set with >=2 tags or duplicate values / indicator case "
         "with >=2 points per set; distinct by the recorded data")
